@@ -194,3 +194,33 @@ Proof.
   apply slant_discretisation_error_lemma. assumption.
 Qed.
 Print Assumptions slant_depth_discretisation_error_cmc.
+
+(* --- endpoints outside the sphere (shallow depth with a large horizontal offset, or z > 0): the code
+       integrates from the endpoint to the EXIT point exit_distance = -e.d + sqrt(disc), i.e. first
+       through vacuum up to entry_distance = -e.d - sqrt(disc).  Before the entry the radius exceeds R,
+       between entry and exit it is below R ... ------------------------------------------------------ *)
+Theorem chord_enters_and_leaves : forall R0 e d s, 0 < R0 -> vdot d d = 1 -> 0 <= disc R0 e d ->
+  (s < entry_distance R0 e d -> R0 < sqrt (vdot (along e d s) (along e d s))) /\
+  (entry_distance R0 e d < s < exit_distance R0 e d -> sqrt (vdot (along e d s) (along e d s)) < R0).
+Proof.
+  intros R0 e d s HR Hd HD. split; intro H.
+  - apply chord_outside_before_entry; assumption.
+  - apply chord_inside_between; assumption.
+Qed.
+Print Assumptions chord_enters_and_leaves.
+
+(* ... so the vacuum part of the sampled chord has density exactly 0 and contributes nothing to the
+   integral that slant_depth_discretisation_error compares with (both models) *)
+Theorem vacuum_part_is_zero : forall e d t, vdot d d = 1 ->
+  (0 <= disc PREM_earth_radius e d ->
+   t * exit_distance PREM_earth_radius e d < entry_distance PREM_earth_radius e d ->
+   along_density PREM_density e d (exit_distance PREM_earth_radius e d) t = 0) /\
+  (0 <= disc CoreMantleCrustModel_earth_radius e d ->
+   t * exit_distance CoreMantleCrustModel_earth_radius e d < entry_distance CoreMantleCrustModel_earth_radius e d ->
+   along_density CoreMantleCrustModel_density e d (exit_distance CoreMantleCrustModel_earth_radius e d) t = 0).
+Proof.
+  intros e d t Hd. split; intros HD Ht.
+  - apply prem_vacuum_zero_lemma; assumption.
+  - apply cmc_vacuum_zero_lemma; assumption.
+Qed.
+Print Assumptions vacuum_part_is_zero.
